@@ -328,6 +328,37 @@ udp_find_pipe(udp_ep *ep, const nng_sockaddr *peer_addr)
 	}
 }
 
+// udp_unmap_pipe releases the key a pipe is stored under.  Pipes whose peer
+// addresses hash alike sit on the keys that follow (see udp_add_pipe), and
+// they are looked up by probing from their hash until a free key is met.
+// So the key cannot simply be freed: a pipe behind it whose probe sequence
+// passes through it is moved up first.  Otherwise that pipe could neither
+// be found nor removed anymore, and its map entry would outlive it.
+static void
+udp_unmap_pipe(udp_ep *ep, uint64_t hole)
+{
+	uint64_t  id = hole;
+	udp_pipe *q;
+
+	for (;;) {
+		id++;
+		if (id == 0) {
+			id = 1;
+		}
+		if ((q = nni_id_get(&ep->pipes, id)) == NULL) {
+			break;
+		}
+		// Does the hole lie on the way from the hash of q to its key?
+		if ((hole - q->id) < (id - q->id)) {
+			if (nni_id_set(&ep->pipes, hole, q) != 0) {
+				break;
+			}
+			hole = id;
+		}
+	}
+	nni_id_remove(&ep->pipes, hole);
+}
+
 static void
 udp_remove_pipe(udp_pipe *p)
 {
@@ -346,7 +377,7 @@ udp_remove_pipe(udp_pipe *p)
 			break;
 		}
 		if (srch == p) {
-			nni_id_remove(&ep->pipes, id);
+			udp_unmap_pipe(ep, id);
 			break;
 		}
 		id++;
